@@ -41,6 +41,8 @@ def main():
     ap.add_argument("--skip-tests", action="store_true")
     ap.add_argument("--no-check", action="store_true")
     ap.add_argument("--tier", default="quick")
+    ap.add_argument("--also", default="", help="comma list of OTHER property ids whose quick check is run against the patch too")
+    ap.add_argument("--clauses", default="", help="restrict the main check to these clauses (faster re-runs)")
     args = ap.parse_args()
     pid = args.pid.upper()
     wt = "/tmp/cs_%s_%s_%d" % (pid.lower(), args.name, os.getpid())
@@ -96,7 +98,10 @@ def main():
             env2 = dict(os.environ, VF_REPO=wt)
             env2.pop("VF_PINNED", None)
             t0 = time.time()
-            c = run([os.path.join(VERIF, "vcheck"), pid, "--tier", args.tier, "--no-evidence"], VERIF, env2, timeout=4 * 3600)
+            cmd = [os.path.join(VERIF, "vcheck"), pid, "--tier", args.tier, "--no-evidence"]
+            if args.clauses:
+                cmd += ["--clauses", args.clauses]
+            c = run(cmd, VERIF, env2, timeout=4 * 3600)
             viol = [l for l in c.stdout.splitlines() if l.startswith("VIOLATION")]
             res["check_exit"] = c.returncode
             res["check_seconds"] = round(time.time() - t0, 1)
@@ -108,6 +113,16 @@ def main():
                 rp = os.path.join(VERIF, l.split("replay=")[-1].strip())
                 if os.path.exists(rp) and not any(s in rp for s in ("/known/", "/fixed/", "/regress/")):
                     os.remove(rp)
+            for other in [x for x in args.also.split(",") if x]:
+                c2 = run([os.path.join(VERIF, "vcheck"), other, "--tier", args.tier, "--no-evidence"], VERIF, env2, timeout=4 * 3600)
+                viol2 = [l for l in c2.stdout.splitlines() if l.startswith("VIOLATION")]
+                res.setdefault("also_checked", {})[other] = {
+                    "outcome": "CAUGHT" if (c2.returncode == 1 and viol2) else ("MISSED" if c2.returncode == 0 else "ERROR"),
+                    "failed_clauses": [l.split()[1] for l in c2.stdout.splitlines() if l.startswith("clause ") and " FAILED" in l]}
+                for l in viol2:
+                    rp = os.path.join(VERIF, l.split("replay=")[-1].strip())
+                    if os.path.exists(rp) and not any(s in rp for s in ("/known/", "/fixed/", "/regress/")):
+                        os.remove(rp)
     finally:
         subprocess.call(["git", "-C", "/repo", "worktree", "remove", "--force", wt])
         shutil.rmtree(wt, ignore_errors=True)
